@@ -28,8 +28,9 @@ def plan(tier):
         specs = [(2, [("dense", 1, 5), ("bounded", 3, 6, 7)], MENU_Q), (3, [("dense", 1, 3)], MENU_Q[:3]),
                  (4, [("dense", 1, 2)], MENU_Q[:2]), (5, [("dense", 1, 1), ("bounded", 1, 2, 2)], MENU_Q[:2])]
     else:
-        specs = [(2, [("dense", 1, 7), ("bounded", 3, 8, 10)], MENU_T), (3, [("dense", 1, 4)], MENU_T),
-                 (4, [("dense", 1, 3)], MENU_Q), (5, [("dense", 1, 2)], MENU_Q[:2])]
+        specs = [(2, [("dense", 1, 6), ("bounded", 3, 7, 9)], MENU_T), (3, [("dense", 1, 4)], MENU_Q),
+                 (4, [("dense", 1, 2), ("bounded", 2, 3, 3)], MENU_Q),
+                 (5, [("dense", 1, 1), ("bounded", 1, 2, 3)], MENU_Q[:2])]
     tasks, descs = [], []
     mixed_ks = (8,) if tier == "quick" else (8, 10)
     for be in ("py", "pyx"):
